@@ -42,9 +42,9 @@ fn dict_pair(k0: &'static str, k1: &'static str) {
     kani::cover!(v0 != v1, "different values reached");
     kani::cover!(true, "end reached");
 }
-// @ob id=dict_order_case unwind=12 stubs=fmt tier=quick timeout=1200 mem=20 bound="dictionary {/CA b0 /ca b1} (keys differing only in case, as every ExtGState written by set_opacity has) inserted in both orders, arbitrary boolean values: identical bytes"
+// @ob id=dict_order_case unwind=5 stubs=fmt,vec tier=quick timeout=1500 mem=24 bound="dictionary {/CA b0 /ca b1} (keys differing only in case, as every ExtGState written by set_opacity has) inserted in both orders, arbitrary boolean values: identical bytes"
 fn dict_order_case<const KF: usize>() { dict_pair("CA", "ca") }
-// @ob id=dict_order_prefix unwind=12 stubs=fmt tier=quick timeout=1200 mem=20 bound="dictionary {/Type b0 /Typ b1} (one key a prefix of the other) inserted in both orders: identical bytes"
+// @ob id=dict_order_prefix unwind=5 stubs=fmt,vec tier=quick timeout=1500 mem=24 bound="dictionary {/Type b0 /Typ b1} (one key a prefix of the other) inserted in both orders: identical bytes"
 fn dict_order_prefix<const KF: usize>() { dict_pair("Type", "Typ") }
 
 /// ISO 32000-1 7.3.4.2 reader for a literal string token starting at '(': returns the decoded
@@ -164,5 +164,30 @@ fn name_token<const KF: usize>() {
     }
     std::mem::forget(o); std::mem::forget(r);
     kani::cover!(b[0] == b'A' && b[1] == b'1', "ordinary name reached");
+    kani::cover!(true, "end reached");
+}
+
+// @ob id=name_token_1 kfgroup=name_token1 known="b0: u8" unwind=8 stubs=fmt,vec tier=quick timeout=900 mem=20 bound="Object::Name with every 1-character ASCII name (0x01-0x7F): one 7.3.5 name token that reads back as the same name"
+fn name_token_1<const KF: usize>() {
+    let b0: u8 = kani::any();
+    kani::assume(b0 >= 1 && b0 < 0x80);
+    kani::assume(known::name_token1::<KF>(b0));
+    let mut n = String::with_capacity(2);
+    n.push(b0 as char);
+    let o = Object::Name(n);
+    let w = writer();
+    let mut buf: Vec<u8> = Vec::with_capacity(16);
+    let r = w.write_object_value_to_buffer(&o, &mut buf);
+    assert!(r.is_ok(), "serializing a name fails");
+    let mut dec = [0u8; 8];
+    match spec_read_name(&buf, &mut dec) {
+        Some((n, end)) => {
+            assert!(end == buf.len(), "the name token ends before the emitted bytes do (an unescaped delimiter or white-space splits it)");
+            assert!(n == 1 && dec[0] == b0, "the emitted name token reads back as a different name");
+        }
+        None => assert!(false, "the emitted bytes are not a name token"),
+    }
+    std::mem::forget(o); std::mem::forget(r);
+    kani::cover!(b0 == b'X', "ordinary name reached");
     kani::cover!(true, "end reached");
 }
